@@ -19,6 +19,7 @@ import (
 	"verif/sim/wl/closures"
 	"verif/sim/wl/fanout"
 	"verif/sim/wl/hostcall"
+	"verif/sim/wl/ifacewrap"
 	"verif/sim/wl/methods"
 	"verif/sim/wl/mutexctr"
 	"verif/sim/wl/perworker"
@@ -55,6 +56,7 @@ var templates = []Template{
 	{"tree", tree.Src, tree.Run, []int{1, 2}},
 	{"rwmap", rwmap.Src, rwmap.Run, []int{2, 3}},
 	{"bincalls", bincalls.Src, bincalls.Run, []int{2, 2}},
+	{"ifacewrap", ifacewrap.Src, ifacewrap.Run, []int{2, 2}},
 }
 
 var (
